@@ -554,3 +554,73 @@ func TestVerif_C05_Oversize(t *testing.T) {
 		return res, verr
 	})
 }
+
+// ---- native fuzz target (thorough tier): bytes -> (messages, segmentation) through TLSConn ----
+
+func FuzzVerifTLSConnStream(f *testing.F) {
+	f.Add([]byte{2, 0, 5, 0, 0, 1, 3, 7})
+	f.Add([]byte{1, 0x40, 0x80, 9, 9, 9})
+	f.Add([]byte{4, 0, 0, 0, 1, 0x41, 0x00, 0x00, 0x10, 200, 1, 1, 1})
+	f.Add([]byte{3, 0x3f, 0xff, 0x40, 0x01, 0x41, 0x01, 5, 5})
+	f.Fuzz(func(t *testing.T, data []byte) {
+		if len(data) < 3 {
+			return
+		}
+		nmsg := 1 + int(data[0])%4
+		p := 1
+		var msgs [][]byte
+		for i := 0; i < nmsg && p+2 <= len(data); i++ {
+			n := (int(data[p])<<8 | int(data[p+1])) % 16700
+			p += 2
+			msgs = append(msgs, c05Msg(7, i, n))
+		}
+		cuts := data[p:]
+		l := vk.NewLink(0, false)
+		w, r := NewTLSConn(l.A), NewTLSConn(l.B)
+		var sent [][]byte
+		for _, m := range msgs {
+			n, err := w.Write(m)
+			if len(m) > 1<<14+256 {
+				if err == nil {
+					t.Fatalf("VERIF-VIOLATION property=C05 sub=fuzz file=- sig=oversize: Write of %d bytes accepted", len(m))
+				}
+				continue
+			}
+			if err != nil || n != len(m) {
+				t.Fatalf("VERIF-VIOLATION property=C05 sub=fuzz file=- sig=write: Write(%d) = %d, %v", len(m), n, err)
+			}
+			sent = append(sent, m)
+		}
+		ci := 0
+		for l.PendingBytes(vk.AtoB) > 0 {
+			n := 0
+			if len(cuts) > 0 {
+				n = int(cuts[ci%len(cuts)])
+				if n > 200 {
+					n = (n - 200) * 300
+				}
+				ci++
+			}
+			if n <= 0 {
+				l.DeliverAll(vk.AtoB)
+			} else {
+				l.DeliverBytes(vk.AtoB, n)
+			}
+		}
+		l.A.Close()
+		buf := make([]byte, 20480)
+		for i, m := range sent {
+			n, err := r.Read(buf)
+			if err != nil {
+				t.Fatalf("VERIF-VIOLATION property=C05 sub=fuzz file=- sig=framing: message %d of %d (%d bytes): Read failed with %v", i, len(sent), len(m), err)
+			}
+			if !bytes.Equal(buf[:n], m) {
+				t.Fatalf("VERIF-VIOLATION property=C05 sub=fuzz file=- sig=framing: message %d: read %d bytes, want the %d bytes written", i, n, len(m))
+			}
+		}
+		if n, err := r.Read(buf); err == nil {
+			t.Fatalf("VERIF-VIOLATION property=C05 sub=fuzz file=- sig=framing: %d extra bytes delivered after the last message", n)
+		}
+		l.B.Close()
+	})
+}
